@@ -60,22 +60,35 @@ func converge(w *hist.World, g *hist.Gen) {
 	for _, n := range topics {
 		w.DeleteTopic(n)
 	}
-	w.Jump(8*24*time.Hour + 2*time.Hour)
+	// far enough that every subscription's TTL has passed too: the expiration
+	// job is one of the maintenance jobs and takes part in the rounds
+	w.Jump(40*24*time.Hour + 2*time.Hour)
 	d := must(rig.TakeDump(w.E.RawDB()))
 	rows := len(d["deliveries"]) + len(d["messages"]) + len(d["subscriptions"]) + len(d["topics"])
 	rounds := rows + 2
 	r := w.R
 	lastErr := map[string]string{}
 	done := 0
+	jobs := append(append([]string{}, hist.PruneJobs...), hist.ExpireJob)
+	// every age threshold below the 40 days that have passed must do; half of
+	// the cases never use 0, so that a job which keeps refreshing the age of
+	// dead rows cannot hide behind a zero threshold
+	ages := []time.Duration{0, time.Second, time.Hour}
+	if r.Intn(2) == 0 {
+		ages = []time.Duration{time.Second, time.Hour, 24 * time.Hour}
+	}
 	for i := 0; i < rounds; i++ {
-		order := r.Perm(len(hist.PruneJobs))
+		order := r.Perm(len(jobs))
 		deleted := 0
 		lastErr = map[string]string{}
 		for _, j := range order {
-			n, err := w.RunJob(hist.PruneJobs[j], []time.Duration{0, time.Second, time.Hour}[r.Intn(3)], []int{1, 2, 100}[r.Intn(3)])
+			n, err := w.RunJob(jobs[j], ages[r.Intn(3)], []int{1, 2, 100}[r.Intn(3)])
+			if jobs[j] == hist.ExpireJob && n > 0 {
+				w.Violate("C15", "expire-job-works-on-dead-state", "with every subscription deleted, %s reported %d deletions in convergence round %d", jobs[j], n, i)
+			}
 			deleted += n
 			if err != nil {
-				lastErr[hist.PruneJobs[j]] = err.Error()
+				lastErr[jobs[j]] = err.Error()
 			}
 		}
 		done = i + 1
@@ -119,7 +132,7 @@ func converge(w *hist.World, g *hist.Gen) {
 		if len(d["snapshots"]) > 0 {
 			sig += ":snapshot-pins-deleted-topic"
 		}
-		w.Violate("C15", sig, "after everything was deleted and %d rounds of all prune jobs (age > 8 days): left behind %v; job errors in the last round: %v%s", done, left, lastErr, pins)
+		w.Violate("C15", sig, "after everything was deleted and %d rounds of all prune jobs (age > 40 days): left behind %v; job errors in the last round: %v%s", done, left, lastErr, pins)
 	}
 }
 
